@@ -117,6 +117,12 @@ def handleTree : List Sexp → Option String
   | [atom "c12-run", list ops] => do
     let ops ← ops.mapM c12Op?
     pure (" ; ".intercalate (c12Run State.init ops))
+  | [atom "c12-scope", list ops] => do
+    let ops ← ops.mapM c12Op?
+    pure (if ops.all Op.scope then "1" else "0")
+  | [atom "c12-nolit", n] => do
+    let n ← c12Str? n
+    pure (if noLit n.flatten then "1" else "0")
   | _ => none
 
 end Pydap.Driver
